@@ -3,7 +3,7 @@
    with error "timeout" (unless it was finished before).  The timeout heap is modelled by its sorted view (Model.v
    s_tq, kept sorted by tins); handletimeouts (jobs.py:139-151) pops while the head's deadline has passed. *)
 From Coq Require Import List NArith Bool Lia Arith Sorted.
-From MW Require Import C16.Model C16.Proofs C17.Proofs C17.ProofsOrder C18.Proofs C18.ProofsIds C18.ProofsInv.
+From MW Require Import C16.Model C16.Proofs C17.Proofs C17.ProofsOrder C17.ProofsCount C18.Proofs C18.ProofsIds C18.ProofsInv.
 Import ListNotations.
 Open Scope N_scope.
 
@@ -143,3 +143,247 @@ Lemma timeout_example :
   map (fun j => (j_serial j, j_done j, j_err j)) (s_jobs s2) = [(2, true, EStr 1); (1, false, ENone)] \/
   map (fun j => (j_serial j, j_done j, j_err j)) (s_jobs s2) = [(1, false, ENone); (2, true, EStr 1)].
 Proof. vm_compute. auto. Qed.
+
+(* ------------------------------------------------------------------ in every reachable state, with restarts *)
+
+(* TQ: the timeout heap is sorted and holds, for every unfinished job, an entry with the job's deadline *)
+Definition TQC (s : state) : Prop :=
+  forall x j, getjob (s_jobs s) x = Some j -> j_done j = false -> In (j_timeout j, (j_prio j, x)) (s_tq s).
+Definition TQ (s : state) : Prop := tsorted (s_tq s) /\ TQC s.
+
+(* evolution of the job table as far as TQC is concerned: an unfinished job was there before, unfinished, with the
+   same deadline and priority *)
+Definition tmo_le (js js' : list job) : Prop :=
+  forall x j', getjob js' x = Some j' -> j_done j' = false ->
+  exists j, getjob js x = Some j /\ j_done j = false /\ j_timeout j = j_timeout j' /\ j_prio j = j_prio j'.
+
+Lemma tmo_le_refl : forall js, tmo_le js js.
+Proof. intros js x j E D. exists j. auto. Qed.
+
+Lemma tmo_le_trans : forall a b c, tmo_le a b -> tmo_le b c -> tmo_le a c.
+Proof.
+  intros a b c H1 H2 x j E D. destruct (H2 x j E D) as (j1&E1&D1&T1&P1). destruct (H1 x j1 E1 D1) as (j0&E0&D0&T0&P0).
+  exists j0. repeat split; congruence.
+Qed.
+
+Lemma tqc_mono : forall s s', TQC s -> tmo_le (s_jobs s) (s_jobs s') -> (forall e, In e (s_tq s) -> In e (s_tq s')) -> TQC s'.
+Proof.
+  intros s s' C T Sub x j' E D. destruct (T x j' E D) as (j&E0&D0&T0&P0). rewrite <- T0, <- P0. apply Sub. apply C; assumption.
+Qed.
+
+Lemma tq_same : forall s s', s_jobs s' = s_jobs s -> s_tq s' = s_tq s -> TQ s -> TQ s'.
+Proof. intros s s' J Q [S C]. split; [rewrite Q; exact S|]. intros x j E D. rewrite Q. rewrite J in E. apply C; assumption. Qed.
+
+Lemma setjob_tmo_le : forall js ser f,
+  (forall j, j_serial (f j) = j_serial j /\ (j_done (f j) = false -> j_done j = false) /\ j_timeout (f j) = j_timeout j /\ j_prio (f j) = j_prio j) ->
+  tmo_le js (setjob ser f js).
+Proof.
+  intros js ser f Hf x j' E D. rewrite getjob_setjob in E by (intros j0 H0; rewrite (proj1 (Hf j0)); exact H0).
+  destruct (x =? ser) eqn:Ex.
+  - apply N.eqb_eq in Ex. subst x. destruct (getjob js ser) as [j|] eqn:Ej; cbn in E; [|discriminate].
+    inversion E; subst j'. destruct (Hf j) as (_&H1&H2&H3). exists j. repeat split; auto.
+  - exists j'. auto.
+Qed.
+
+Lemma mark_tmo_le : forall x u s, tmo_le (s_jobs s) (s_jobs (mark_finished x u s)).
+Proof.
+  intros x u s. unfold mark_finished. destruct (getjob (s_jobs s) x) as [j|] eqn:E; [|apply tmo_le_refl].
+  destruct (j_done j) eqn:D; [apply tmo_le_refl|]. sf. intros y j' E' D'.
+  rewrite getjob_setjob in E' by (intros; cbn; eapply getjob_serial; eauto).
+  destruct (y =? x) eqn:Ey.
+  - rewrite E in E'. cbn in E'. inversion E'; subst j'. discriminate D'.
+  - exists j'. auto.
+Qed.
+
+Lemma pushjob_tq : forall x s, TQ s -> TQ (pushjob x s).
+Proof.
+  intros x s [S C]. unfold pushjob. destruct (getjob (s_jobs s) x) as [j|]; [|split; assumption]. cbv zeta. sf.
+  assert (TQ (set_tq (tins (j_timeout j, (j_prio j, x)) (s_tq s)) (set_ids (id_set (s_ids s) (j_id j) x) s))) as H.
+  { split; sf; [apply tsorted_tins; exact S|]. intros y jy E D. sf. apply tins_In. right. apply C; assumption. }
+  destruct (filter (watches (j_chan j)) (s_waiters s)); sf; (eapply tq_same; [| |exact H]; reflexivity).
+Qed.
+
+Lemma deliver_tq_eq : forall c chs x s, s_tq (fst (deliver c chs x s)) = s_tq s.
+Proof. intros. unfold deliver. destruct (getjob (s_jobs s) x); reflexivity. Qed.
+
+Lemma pop_tq_eq : forall c chs s, s_tq (fst (pop_or_block c chs s)) = s_tq s.
+Proof.
+  intros. unfold pop_or_block. cbv zeta. destruct (heads _ _) as [x|]; [|reflexivity].
+  destruct (getjob _ _); [|reflexivity]. rewrite deliver_tq_eq. reflexivity.
+Qed.
+
+Lemma shutdown_tq : forall l s, TQ s -> TQ (shutdown_loop l s).
+Proof.
+  induction l as [|[i w] r IH]; intros s K; cbn [shutdown_loop]; [exact K|].
+  destruct (is_done (s_jobs s) w); [apply IH; exact K|]. apply IH. apply pushjob_tq. eapply tq_same; [| |exact K]; reflexivity.
+Qed.
+
+Lemma die_tq : forall c s, TQ s -> TQ (fst (die c s)).
+Proof. intros c s K. unfold die. cbv zeta. cbn [fst]. apply shutdown_tq. eapply tq_same; [| |exact K]; reflexivity. Qed.
+
+Lemma run_event_tq : forall e s, TQ s -> TQ (fst (run_event e s)).
+Proof.
+  intros e s K. destruct e as [c|c|ser]; cbn [run_event].
+  - destruct (c_st (get_conn (s_conns s) c)) as [|chs [x|]|w|]; try exact K.
+    destruct (is_done (s_jobs s) x); (eapply tq_same; [| |exact K]); [apply pop_jobs|apply pop_tq_eq|apply deliver_jobs|apply deliver_tq_eq].
+  - destruct (c_st (get_conn (s_conns s) c)) as [|chs mb|w|]; try exact K; try (apply die_tq; exact K).
+    apply die_tq. destruct mb as [x|]; [|eapply tq_same; [| |exact K]; reflexivity].
+    sf. destruct (is_done (s_jobs s) x); [eapply tq_same; [| |exact K]; reflexivity|].
+    apply pushjob_tq. eapply tq_same; [| |exact K]; reflexivity.
+  - destruct (release ser (s_jobs s) (s_conns s)) as [cs o]. destruct (getjob (s_jobs s) ser) as [j|]; [|eapply tq_same; [| |exact K]; reflexivity].
+    destruct (j_drop j && has_waiter ser (s_conns s) && id_is (s_ids s) (j_id j) ser); (eapply tq_same; [| |exact K]; reflexivity).
+Qed.
+
+Lemma run_events_tq : forall es s, TQ s -> TQ (fst (run_events es s)).
+Proof.
+  induction es as [|e r IH]; intros s K; cbn [run_events]; [exact K|].
+  pose proof (run_event_tq e s K) as K1. destruct (run_event e s) as [s1 o1]. cbn [fst] in K1.
+  specialize (IH s1 K1). destruct (run_events r s1) as [s2 o2]. exact IH.
+Qed.
+
+Lemma mark_tq : forall x u s, TQ s -> TQ (mark_finished x u s).
+Proof.
+  intros x u s [S C]. destruct (mark_fields x u s) as (_&_&_&_&_&_&Hq). split; [rewrite Hq; exact S|].
+  eapply tqc_mono; [exact C|apply mark_tmo_le|]. intros e H. rewrite Hq. exact H.
+Qed.
+
+Lemma killjobs_tq : forall js s, TQ s -> TQ (killjobs js s).
+Proof.
+  induction js as [|i r IH]; intros s K; cbn [killjobs]; [exact K|].
+  destruct (id_lookup (s_ids s) i); apply IH; [apply mark_tq|]; exact K.
+Qed.
+
+(* an entry the sweep removes belongs to a job that is finished afterwards *)
+Lemma timeouts_loop_keeps : forall q s e, In e q ->
+  In e (s_tq (timeouts_loop q s)) \/ is_done (s_jobs (timeouts_loop q s)) (snd (snd e)) = true.
+Proof.
+  induction q as [|y r IH]; intros s e Hin; [destruct Hin|]. cbn [timeouts_loop].
+  destruct (is_done (s_jobs s) (snd (snd y))) eqn:Dy.
+  - destruct Hin as [H|H]; [subst y; right; apply timeouts_done_mono; exact Dy|apply IH; exact H].
+  - destruct (s_now s <? fst y); [left; sf; exact Hin|].
+    destruct Hin as [H|H]; [subst y; right; apply timeouts_done_mono; apply mark_done|apply IH; exact H].
+Qed.
+
+Lemma tsorted_suffix : forall q s, tsorted q -> tsorted (s_tq (timeouts_loop q s)).
+Proof.
+  induction q as [|y r IH]; intros s S; cbn [timeouts_loop]; [sf; constructor|].
+  inversion S as [|? ? Sr _]; subst.
+  destruct (is_done (s_jobs s) (snd (snd y))); [apply IH; exact Sr|].
+  destruct (s_now s <? fst y); [sf; exact S|apply IH; exact Sr].
+Qed.
+
+Lemma timeouts_tmo_le : forall q s, tmo_le (s_jobs s) (s_jobs (timeouts_loop q s)).
+Proof.
+  induction q as [|y r IH]; intro s; cbn [timeouts_loop]; [apply tmo_le_refl|].
+  destruct (is_done (s_jobs s) (snd (snd y))); [apply IH|].
+  destruct (s_now s <? fst y); [apply tmo_le_refl|]. eapply tmo_le_trans; [apply mark_tmo_le|apply IH].
+Qed.
+
+Lemma timeouts_tq : forall s, TQ s -> TQ (timeouts_loop (s_tq s) s).
+Proof.
+  intros s [S C]. split; [apply tsorted_suffix; exact S|].
+  intros x j' E D. destruct (timeouts_tmo_le (s_tq s) s x j' E D) as (j&E0&D0&T0&P0).
+  pose proof (C x j E0 D0) as Hin. rewrite T0, P0 in Hin.
+  destruct (timeouts_loop_keeps (s_tq s) s _ Hin) as [H|H]; [exact H|].
+  cbn [snd] in H. unfold is_done in H. rewrite E in H. congruence.
+Qed.
+
+Lemma dropjobs_tq : forall js s, TQ s -> TQ (dropjobs js s).
+Proof.
+  induction js as [|i r IH]; intros s K; cbn [dropjobs]; [exact K|].
+  destruct (id_lookup (s_ids s) i) as [ser|]; [|apply IH; exact K]. apply IH. destruct K as [S C]. split; [exact S|].
+  eapply tqc_mono; [exact C| |intros e H; exact H]. sf. apply setjob_tmo_le. intro j. cbn. auto.
+Qed.
+
+Lemma dropdead_tq : forall l s, TQ s -> TQ (dropdead_loop l s).
+Proof.
+  induction l as [|i r IH]; intros s K; cbn [dropdead_loop]; [exact K|].
+  destruct (id_lookup (s_ids s) i) as [ser|]; [|apply IH; exact K].
+  destruct (getjob (s_jobs s) ser) as [j|]; [|apply IH; exact K]. cbv zeta. apply IH.
+  set (s1 := if match j_dl j with Some d => negb (d =? 0) && (d <? s_now s) | None => false end
+             then set_ids (id_del (s_ids s) i) s else s).
+  assert (K1 : TQ s1) by (unfold s1; destruct (match j_dl j with Some d => negb (d =? 0) && (d <? s_now s) | None => false end);
+                          [eapply tq_same; [| |exact K]; reflexivity|exact K]).
+  destruct (j_done j && negb (dl_truthy (j_dl j))); [|exact K1].
+  destruct K1 as [S C]. split; [exact S|]. eapply tqc_mono; [exact C| |intros e H; exact H]. sf. apply setjob_tmo_le. intro j0. cbn. auto.
+Qed.
+
+Lemma step_tq : forall s o, Inv s [] [] -> TQ s -> TQ (fst (step s o)).
+Proof.
+  intros s o I K.
+  destruct o as [ch prio name tmo|c chs| |c i res e|c js|dt|c|k|c i|i|i v| |dt|js|]; cbn [step].
+  - assert (F : forall j0, j_serial j0 = s_count s + 1 ->
+                TQ (pushjob (s_count s + 1) (set_jobs (j0 :: s_jobs s) (set_count (s_count s + 1) s)))).
+    { intros j0 Hs. destruct K as [S C].
+      assert (FRESH : getjob (s_jobs s) (s_count s + 1) = None).
+      { destruct (getjob (s_jobs s) (s_count s + 1)) as [j|] eqn:E; [|reflexivity]. pose proof (inv_tab _ _ _ I _ _ E). lia. }
+      unfold pushjob. sf. cbn [getjob]. rewrite Hs, N.eqb_refl. cbv zeta. sf.
+      assert (H : TQ (set_tq (tins (j_timeout j0, (j_prio j0, s_count s + 1)) (s_tq s))
+                     (set_ids (id_set (s_ids s) (j_id j0) (s_count s + 1)) (set_jobs (j0 :: s_jobs s) (set_count (s_count s + 1) s))))).
+      { split; sf; [apply tsorted_tins; exact S|]. intros y jy E D. sf. apply tins_In. cbn [getjob] in E. rewrite Hs in E.
+        destruct (s_count s + 1 =? y) eqn:Ey.
+        - apply N.eqb_eq in Ey. subst y. inversion E; subst jy. left; reflexivity.
+        - right. apply C; assumption. }
+      destruct (filter (watches (j_chan j0)) (s_waiters s)); sf; (eapply tq_same; [| |exact H]; reflexivity). }
+    unfold push. destruct name as [n|]; [|apply F; reflexivity].
+    destruct (id_lookup (s_ids s) (JName n)) as [ser|]; [|apply F; reflexivity].
+    destruct (getjob (s_jobs s) ser) as [j0|]; [|apply F; reflexivity].
+    destruct (err_is_killed (j_err j0)); [apply F; reflexivity|exact K].
+  - destruct (is_idle c s); [|exact K]. eapply tq_same; [apply pop_jobs|apply pop_tq_eq|exact K].
+  - apply run_events_tq. eapply tq_same; [| |exact K]; reflexivity.
+  - destruct (is_idle c s); [|exact K]. destruct (id_lookup (s_ids s) i); [|exact K]. cbn [fst].
+    eapply tq_same; [| |apply mark_tq; exact K]; reflexivity.
+  - destruct (is_idle c s); [|exact K]. cbn [fst]. eapply tq_same; [| |apply killjobs_tq; exact K]; reflexivity.
+  - cbn [fst]. unfold handletimeouts, preenall. eapply tq_same; [| |apply (timeouts_tq (set_now (s_now s + dt) s))]; try reflexivity.
+    eapply tq_same; [| |exact K]; reflexivity.
+  - destruct (c_st (get_conn (s_conns s) c)); cbn [fst]; try exact K; (eapply tq_same; [| |exact K]; reflexivity).
+  - cbn [fst]. eapply tq_same; [| |exact K]; reflexivity.
+  - destruct (is_idle c s); [|exact K]. destruct (id_lookup (s_ids s) i) as [ser|]; [|exact K].
+    destruct (getjob (s_jobs s) ser) as [j|]; [|exact K].
+    destruct (j_done j && negb (done_pending ser (s_hub s))); [destruct (j_drop j && id_is (s_ids s) (j_id j) ser)|]; cbn [fst];
+      try exact K; (eapply tq_same; [| |exact K]; reflexivity).
+  - exact K.
+  - destruct (id_lookup (s_ids s) i) as [ser|]; [|exact K]. cbn [fst]. destruct K as [S C]. split; [exact S|].
+    eapply tqc_mono; [exact C| |intros e0 H; exact H]. sf. apply setjob_tmo_le. intro j. cbn. auto.
+  - exact K.
+  - cbn [fst]. eapply tq_same; [| |exact K]; reflexivity.
+  - cbn [fst]. apply dropjobs_tq. exact K.
+  - cbn [fst]. unfold dropdead. apply dropdead_tq. exact K.
+Qed.
+
+Lemma restart_tq : forall s, RGood s -> TQ (restart s).
+Proof.
+  intros s ((A&_&I)&_&K). split; [apply restart_ts|]. intros x j E D.
+  (* every job of the restarted table is a saved one *)
+  destruct (restore_state (s_now s) (save s)) as (_&H2&_). unfold restart in E. rewrite H2 in E.
+  pose proof (getjob_In _ _ _ E) as Hin. rewrite <- (getjob_serial _ _ _ E).
+  unfold restart, restore. apply restore_loop_queued; assumption.
+Qed.
+
+Lemma tq_init : TQ init.
+Proof. split; [constructor|intros x j H; discriminate H]. Qed.
+
+Lemma rrun_tq : forall h s, RGood s -> TQ s -> RGood (rrun h s) /\ TQ (rrun h s).
+Proof.
+  induction h as [|r h IH]; intros s G K; [split; assumption|]. change (rrun (r :: h) s) with (rrun h (rstep s r)).
+  apply IH; [apply rstep_rgood; exact G|]. destruct r as [o|]; cbn [rstep]; [apply step_tq; [apply G|exact K]|apply restart_tq; exact G].
+Qed.
+
+(* In every state reachable with the full alphabet and restarts: a handletimeouts sweep (Tick) whose clock reading is
+   at or past the deadline of an unfinished job finishes it with error "timeout". *)
+Lemma sweep_times_out : forall h x j dt,
+  let s := rrun h init in
+  getjob (s_jobs s) x = Some j -> j_done j = false -> j_timeout j <= s_now s + dt ->
+  exists j', getjob (s_jobs (fst (step s (Tick dt)))) x = Some j' /\ j_done j' = true /\ j_err j' = e_timeout.
+Proof.
+  intros h x j dt s E D Hd. destruct (rrun_tq h init rgood_init tq_init) as [_ [S C]]. fold s in S, C.
+  pose proof (C x j E D) as Htq.
+  cbn [step fst]. unfold handletimeouts, preenall. sf.
+  set (s1 := set_now (s_now s + dt) s).
+  pose proof (timeouts_loop_spec (s_tq s) s1 S _ _ _ Htq) as DONE. unfold s1 at 1 in DONE. sf. specialize (DONE Hd).
+  change (s_tq s1) with (s_tq s). unfold is_done in DONE.
+  destruct (getjob (s_jobs (timeouts_loop (s_tq s) s1)) x) as [j'|] eqn:Ej'.
+  - exists j'. split; [reflexivity|]. split; [exact DONE|]. eapply (timeouts_loop_err (s_tq s) s1 x j); eauto.
+  - destruct (timeouts_tab_le (s_tq s) s1) as [T _]. specialize (T x). change (s_jobs s1) with (s_jobs s) in T.
+    rewrite E, Ej' in T. destruct T.
+Qed.
